@@ -40,9 +40,10 @@ use vcore::{
 // ------------------------------------------------------------------ alphabets
 
 /// Lexeme alphabet of sub-spaces a / aw and of the "replace" edit of c.
-const LEXEMES: [&str; 28] = [
+/// (`a-b` is a glyph of the glyph map, `a-c` is not and is a range of two of its glyphs.)
+const LEXEMES: [&str; 29] = [
     "feature", "lookup", "sub", "by", "pos", "'", "[", "]", "{", "}", "(", ")", "<", ">", ";", ",",
-    "=", "-", "@c", "\\a", "a", "a-b", "10", "-5", "1.5", "\"s\"", "#c\n", "include",
+    "=", "-", "@c", "\\a", "a", "a-b", "a-c", "10", "-5", "1.5", "\"s\"", "#c\n", "include",
 ];
 
 /// Character alphabet of sub-space b.
@@ -56,7 +57,7 @@ const OPERAND_CHARS: [&str; 6] = ["a", "b", "-", ".", "\\", "1"];
 /// Statement templates of sub-space e; every `X` is the operand. Rules only parse inside a
 /// feature block (at top level `pos` is an unexpected token and the operand is never in a
 /// glyph position).
-const OPERAND_TEMPLATES: [&str; 9] = [
+const OPERAND_TEMPLATES: [&str; 11] = [
     "feature f {pos X 0;} f;",
     "feature f {sub X by a;} f;",
     "feature f {sub a by X;} f;",
@@ -66,6 +67,8 @@ const OPERAND_TEMPLATES: [&str; 9] = [
     "feature f {pos X X 0;} f;",
     "feature f {sub a from [X];} f;",
     "@c = [a X b];",
+    "@c = [a - X];",
+    "@c = [X - b];",
 ];
 
 /// Glyph maps of sub-space e (`None`: parsed without a glyph map). A name of the form `\N` is
@@ -2373,6 +2376,9 @@ fn main() {
         Space::Seq { n: n_aw, wrapped: true },
         Space::Seq { n: n_a, wrapped: false },
     ];
+    // debugging aid: C13_SPACES=e,c runs only those sub-spaces (the run then says it is not exhaustive)
+    let only: Option<Vec<String>> = std::env::var("C13_SPACES").ok().map(|l| l.split(',').map(|x| x.trim().to_string()).collect());
+    let spaces: Vec<Space> = spaces.into_iter().filter(|sp| only.as_ref().is_none_or(|o| o.iter().any(|n| n == sp.name()))).collect();
     let sweep_budget = Duration::from_secs(tier.pick(35, 12 * 60));
     let deadline = Instant::now() + sweep_budget;
     let results: Vec<SpaceResult> = spaces.iter().map(|s| run_space(s, deadline)).collect();
@@ -2590,7 +2596,7 @@ fn main() {
     // ---- evidence
     let evaluations: u64 = results.iter().map(|r| r.done).sum();
     let nontrivial: u64 = results.iter().map(|r| r.nontrivial).sum();
-    let exhaustive = results.iter().all(|r| !r.capped);
+    let exhaustive = results.iter().all(|r| !r.capped) && only.is_none();
     let mut per_space = serde_json::Map::new();
     let mut samples = vec![];
     for (space, r) in spaces.iter().zip(&results) {
@@ -2616,7 +2622,7 @@ fn main() {
             Space::Edits(c) => {
                 o["files"] = json!(c.files.len());
                 o["token_positions"] = json!(c.tokens());
-                o["edits"] = json!(if c.all_ops { "none, delete, duplicate, swap-adjacent, replace by each of the 28 lexemes" } else { "none, delete, duplicate, swap-adjacent" });
+                o["edits"] = json!(if c.all_ops { "none, delete, duplicate, swap-adjacent, replace by each of the 29 lexemes" } else { "none, delete, duplicate, swap-adjacent" });
             }
             Space::Operand { k } => {
                 o["max_operand_chars"] = json!(k);
